@@ -13,6 +13,7 @@ import (
 	"fmt"
 	"os"
 	"os/exec"
+	"path/filepath"
 	"runtime"
 	"runtime/pprof"
 	"sort"
@@ -184,22 +185,78 @@ func (w *worker) evalRoundTrip(k *kase, res *result) {
 		if f == lz.FileFormatXz {
 			xzStructure(src, enc, res, encOp)
 		}
-		if !k.external {
+	}
+}
+
+// xzToolPass: oracle 2, the xz tool. Process creation is expensive, so the encodings are written to
+// a scratch directory and decoded in batches (`xz -dc --format=F f1 f2 …` prints the concatenation);
+// a batch that does not print exactly the concatenated payloads is re-run file by file to find the
+// culprit.
+func xzToolPass(xzPath string, cases []*kase, results []*result) (runs int) {
+	dir, cleanup := hlib.NewScratchDir("c17xz")
+	defer cleanup()
+	for _, f := range []lz.FileFormat{lz.FileFormatLZMA, lz.FileFormatXz} {
+		fn := fmtName(f)
+		var idx []int
+		for i, k := range cases {
+			if k.kind == "rt" && k.external {
+				idx = append(idx, i)
+			}
+		}
+		const batch = 48
+		for b := 0; b < len(idx); b += batch {
+			e := b + batch
+			if e > len(idx) {
+				e = len(idx)
+			}
+			var files []string
+			var want []byte
+			for _, i := range idx[b:e] {
+				enc, err := f.Encode(nil, cases[i].data)
+				if err != nil {
+					enc = nil
+				}
+				name := filepath.Join(dir, fmt.Sprintf("%s-%d.bin", fn, i))
+				os.WriteFile(name, enc, 0o644)
+				files = append(files, name)
+				want = append(want, cases[i].data...)
+			}
+			args := append([]string{"-dc", "--format=" + fn}, files...)
+			o, _, err := hlib.RunCmd(600*time.Second, "", nil, nil, xzPath, args...)
+			runs += len(files)
+			if err == nil && bytes.Equal(o, want) {
+				for _, name := range files {
+					os.Remove(name)
+				}
+				continue
+			}
+			for j, i := range idx[b:e] {
+				src := cases[i].data
+				encOp := "enc " + fn + " " + hlib.Hex(src)
+				o, se, err := hlib.RunCmd(120*time.Second, "", nil, nil, xzPath, "-dc", "--format="+fn, files[j])
+				if err != nil {
+					results[i].fail("conformance:xz-tool:"+fn+":rejected", fmt.Sprintf("xz -dc --format=%s rejected the encoding: %v: %s", fn, err, strings.TrimSpace(strings.ReplaceAll(string(se), dir, ""))), clip(encOp))
+				} else if !bytes.Equal(o, src) {
+					results[i].fail("conformance:xz-tool:"+fn+":data", fmt.Sprintf("xz -dc --format=%s printed different bytes (len %d vs %d)", fn, len(o), len(src)), clip(encOp))
+				}
+				os.Remove(files[j])
+			}
+		}
+	}
+	return runs
+}
+
+// evalWuffs: oracle 3, the Wuffs std/lzma and std/xz decoders from the working tree (second pass, once
+// the driver has been generated and compiled).
+func (w *worker) evalWuffs(k *kase, res *result) {
+	src := k.data
+	for _, f := range []lz.FileFormat{lz.FileFormatLZMA, lz.FileFormatXz} {
+		fn := fmtName(f)
+		encOp := "enc " + fn + " " + hlib.Hex(src)
+		enc, err := f.Encode(nil, src)
+		if err != nil {
 			continue
 		}
-		// oracle 2: the xz tool
-		if w.xzPath != "" {
-			o, e := w.runXz(fn, enc)
-			res.xzRuns++
-			if e != "" {
-				res.fail("conformance:xz-tool:"+fn+":rejected", "xz -dc --format="+fn+" rejected the encoding: "+e, clip(encOp))
-			} else if !bytes.Equal(o, src) {
-				res.fail("conformance:xz-tool:"+fn+":data", fmt.Sprintf("xz -dc --format=%s printed different bytes (len %d vs %d)", fn, len(o), len(src)), clip(encOp))
-			}
-		} else {
-			res.count("skipped:xz-tool-absent")
-		}
-		// oracle 3: Wuffs std/lzma, std/xz from the working tree
 		if w.wuffs != nil {
 			fb := byte('L')
 			if f == lz.FileFormatXz {
@@ -227,7 +284,7 @@ func (w *worker) evalRoundTrip(k *kase, res *result) {
 				}
 			}
 		} else {
-			res.count("skipped:wuffs-driver-absent")
+			res.fail("conformance:wuffs:"+fn+":driver", "Wuffs driver process not available", clip(encOp))
 		}
 	}
 }
@@ -362,6 +419,25 @@ func main() {
 			defer pprof.StopCPUProfile()
 		}
 	}
+	// generate + compile the Wuffs decoders in the background while pass 1 runs
+	type buildRes struct {
+		wb  *wuffsBuild
+		err error
+	}
+	buildCh := make(chan buildRes, 1)
+	if os.Getenv("C17_NO_WUFFS") == "" {
+		go func() {
+			opt := "-O0" // compile time matters in the quick tier; the decoders are fast enough unoptimised
+			if r.Thorough {
+				opt = "-O2"
+			}
+			wb, err := buildWuffsDriver(r.Repo, opt)
+			buildCh <- buildRes{wb, err}
+		}()
+	} else {
+		buildCh <- buildRes{nil, nil}
+	}
+
 	cases := genCases(r)
 	fmt.Fprintf(os.Stderr, "c17: %d cases generated in %.1fs\n", len(cases), time.Since(t0).Seconds())
 
@@ -377,53 +453,70 @@ func main() {
 	if xzPath == "" {
 		r.Note("xz tool absent: xz-tool oracle skipped")
 	}
-	var wb *wuffsBuild
-	if os.Getenv("C17_NO_WUFFS") == "" {
-		var err error
-		wb, err = buildWuffsDriver(r.Repo)
-		if err != nil {
-			// std/lzma or std/xz from the working tree no longer generate/compile: that breaks the
-			// conformance oracle, report it.
-			r.Fail("conformance:wuffs:build", "could not generate+compile std/lzma, std/xz from the working tree: "+firstLines(err.Error(), 12), "wuffs gen && gcc (see harness/cmd/c17/wuffsdec.go)")
-		} else {
-			defer wb.cleanup()
-		}
-	}
-
-	fmt.Fprintf(os.Stderr, "c17: external decoders ready at %.1fs\n", time.Since(t0).Seconds())
 	nw := runtime.NumCPU()
 	if !r.Thorough && nw > 8 {
 		nw = 8
 	}
 	results := make([]*result, len(cases))
-	var wg sync.WaitGroup
-	next := make(chan int, len(cases))
-	for i := range cases {
-		next <- i
-	}
-	close(next)
-	for j := 0; j < nw; j++ {
-		wg.Add(1)
-		go func() {
-			defer wg.Done()
-			w := &worker{xzPath: xzPath}
-			if wb != nil {
-				if d, err := wb.start(); err == nil {
-					w.wuffs = d
-					defer d.close()
+	pass := func(f func(w *worker, i int), mk func(w *worker) func()) {
+		var wg sync.WaitGroup
+		next := make(chan int, len(cases))
+		for i := range cases {
+			next <- i
+		}
+		close(next)
+		for j := 0; j < nw; j++ {
+			wg.Add(1)
+			go func() {
+				defer wg.Done()
+				w := &worker{xzPath: xzPath}
+				if mk != nil {
+					defer mk(w)()
 				}
-			}
-			for i := range next {
-				results[i] = w.eval(cases[i])
-				cases[i].data, cases[i].enc = nil, nil
-			}
-		}()
+				for i := range next {
+					f(w, i)
+				}
+			}()
+		}
+		wg.Wait()
 	}
-	wg.Wait()
-	fmt.Fprintf(os.Stderr, "c17: cases evaluated at %.1fs\n", time.Since(t0).Seconds())
+	pass(func(w *worker, i int) { results[i] = w.eval(cases[i]) }, nil)
+	fmt.Fprintf(os.Stderr, "c17: pass 1 (Go oracles) done at %.1fs\n", time.Since(t0).Seconds())
+	xzRuns := 0
+	if xzPath != "" {
+		xzRuns = xzToolPass(xzPath, cases, results)
+	} else {
+		r.Count("skipped:xz-tool-absent")
+	}
+	fmt.Fprintf(os.Stderr, "c17: xz tool pass done at %.1fs\n", time.Since(t0).Seconds())
+	br := <-buildCh
+	fmt.Fprintf(os.Stderr, "c17: Wuffs decoders ready at %.1fs\n", time.Since(t0).Seconds())
+	if br.err != nil {
+		// std/lzma or std/xz from the working tree no longer generate/compile: that breaks the
+		// conformance oracle, report it.
+		r.Fail("conformance:wuffs:build", "could not generate+compile std/lzma, std/xz from the working tree: "+firstLines(br.err.Error(), 12), "wuffs gen base std/xz && gcc (see harness/cmd/c17/wuffsdec.go)")
+	} else if br.wb != nil {
+		wb := br.wb
+		defer wb.cleanup()
+		pass(func(w *worker, i int) {
+			if cases[i].kind == "rt" && cases[i].external {
+				w.evalWuffs(cases[i], results[i])
+			}
+		}, func(w *worker) func() {
+			d, err := wb.start()
+			if err != nil {
+				return func() {}
+			}
+			w.wuffs = d
+			return d.close
+		})
+	} else {
+		r.Note("Wuffs decoder oracle disabled by C17_NO_WUFFS")
+	}
+	fmt.Fprintf(os.Stderr, "c17: pass 2 (Wuffs decoders) done at %.1fs\n", time.Since(t0).Seconds())
 
 	maxRat := 0.0
-	xzRuns, wfRuns := 0, 0
+	wfRuns := 0
 	for i, res := range results {
 		for _, o := range res.ops {
 			r.Op(o.op, o.impl)
@@ -442,7 +535,6 @@ func main() {
 		if res.maxRat > maxRat {
 			maxRat = res.maxRat
 		}
-		xzRuns += res.xzRuns
 		wfRuns += res.wfRuns
 		r.Nontrivial(cases[i].kind + ":" + cases[i].name + ":" + fmt.Sprint(i))
 	}
